@@ -57,7 +57,7 @@ def run(ctx):
         'evaluations': s['evaluations'], 'distinct_nontrivial': s['distinct_nontrivial'],
         'rule': s['rule'], 'samples': s['samples'], 'distribution': s['distribution'],
         'traces_validated_against_impl': total, 'disagreements': disagreements,
-        'exhaustive': 'snippet positions: exhaustive per source in [-1, len+2]^2', 'extra': s.get('extra', {}),
+        'exhaustive': False, 'exhaustive_scope': 'snippet positions only: exhaustive per source in [-1, len+2]^2', 'extra': s.get('extra', {}),
     })
     vf.finish(ctx, 'proof', s['oracle_failures'])
 
